@@ -43,10 +43,12 @@ REQUIRED_V = ['cascade_append_rejects', 'cascade_filter_rejects', 'cascade_uniqu
               'capella_raises_iff', 'tiff_raises_iff', 'radarsat_raises_iff', 'tsx_raises_iff', 'palsar2_raises_iff', 'guards_never_raise',
               'isAV_sio', 'isAV_final', 'openComplexWith_eq', 'complexOrder_ok', 'openGeneralV_eq', 'full_eq_model',
               'exclusive_on_written_full', 'no_signature_rejects_full', 'missing_path_rejects', 'dir_rejects_full',
-              'nitf_without_family_des_rejects', 'nitf20_fallback', 'symbols_labels_irrelevant']
+              'nitf_without_family_des_rejects', 'nitf20_fallback', 'symbols_labels_irrelevant',
+              'scanBands_cases', 'scanBands_classes', 'runBand_bandTab', 'checkBand_take_iff', 'checkBand_real', 'scanBands_real',
+              'general_nitf_exclusive']
 # Bridge/Openers.lean: regenerated tables / orders = specified ones
 BRIDGE_REQUIRED = ['gen_tab_eq', 'gen_complexOrder_eq', 'gen_productOrder_eq', 'gen_phaseHistoryOrder_eq', 'gen_receivedOrder_eq',
-                   'gen_generalOrder_eq', 'gen_topOrder_eq', 'gen_entryShape_eq', 'gen_pins', 'gen_isA_eq']
+                   'gen_generalOrder_eq', 'gen_topOrder_eq', 'gen_entryShape_eq', 'gen_pins', 'gen_isA_eq', 'gen_bandTab_eq']
 GEN_OPENERS = os.path.join(VERIF, 'lean', 'SarpyModel', 'Gen', 'Openers.lean')
 
 DATA = os.path.join(os.environ.get('SARPY_REPO', '/repo'), 'tests', 'data')
@@ -146,19 +148,25 @@ def parse_nitf(b, v20):
     return images, (0 if v20 else len(graphics)), dess, extra
 
 
+PV_TOKEN = {'INT': 'int', 'B': 'b', 'SI': 'si', 'R': 'r', 'C': 'c'}
+
+
 def img_token(im):
-    """map an image subheader to the model's image classes; None = outside the modelled classes"""
+    """map an image subheader to the model's image classes; None = outside the modelled classes.
+    c / d<k> / o are the classes of the writer models; any other SAR / SARIQ segment becomes g.s.<pvtype>.<one letter per band>"""
     if im['icat'] not in ('SAR', 'SARIQ'):
         return 'o'
-    if not im['geo']:
-        return None        # SAR segment without IGEOLO: outside the modelled classes (direct oracle only)
     iid1 = im['iid1'].rstrip()
     if im['icat'] == 'SAR' and iid1[:4] == 'SIDD' and iid1[4:].isdigit() and len(iid1) >= 7 \
             and im['pvtype'] not in ('C', 'R', 'SI') and int(iid1[4:7]) >= 1:
         return 'd%d' % (int(iid1[4:7]) - 1)
     if im['pvtype'] in ('R', 'SI') and im['subcats'] == ['I', 'Q'] and iid1[:4] != 'SIDD':
         return 'c'
-    return None
+    if iid1[:4] == 'SICD' and im['pvtype'] == 'INT':
+        return None        # AMP8I_PHS8I image of the SICD writer: the SICD reader takes it, the model's SICD class is the I/Q one (oracle only)
+    if im['pvtype'] not in PV_TOKEN or any(len(x) > 1 for x in im['subcats']):
+        return None        # a band label of several characters: the concatenation test of the code is not the model's pair test
+    return 'g.s.%s.%s' % (PV_TOKEN[im['pvtype']], ''.join(x.lower() if x in ('I', 'Q', 'M', 'P') else 'o' for x in im['subcats']) or '-')
 
 
 def des_token(h, body):
@@ -439,6 +447,34 @@ class Factory:
             p = self.new_path('nitf')
             with open(p, 'wb') as f:
                 f.write(h.to_bytes() + ib + idata + db + ddata)
+            return p
+        if k == 'gnitf':
+            # a general NITF 2.1 with one image segment written by NITFWriter: category, PVTYPE, NBPP, band labels from the recipe
+            from sarpy.io.general.nitf import NITFWritingDetails, NITFWriter, ImageSubheaderManager
+            from sarpy.io.general.nitf_elements.nitf_head import NITFHeader
+            from sarpy.io.general.nitf_elements.image import ImageSegmentHeader, ImageBands, ImageBand
+            sc, rows, cols = r['subcats'], 4, 5
+            nb = len(sc)
+            hdr = ImageSegmentHeader(IID1='GENERAL001', NROWS=rows, NCOLS=cols, PVTYPE=r['pv'], NBPP=r['nbpp'], ABPP=r['nbpp'],
+                                     IREP='MONO' if nb == 1 else ('NODISPLY' if r['icat'].startswith('SAR') else 'MULTI'), ICAT=r['icat'],
+                                     IMODE='B' if nb == 1 else 'P', IC='NC', ICORDS='', NPPBH=cols, NPPBV=rows, NBPR=1, NBPC=1, IDLVL=1, IALVL=0,
+                                     ILOC='0000000000', Bands=ImageBands(values=[ImageBand(ISUBCAT=x, IREPBAND='M' if nb == 1 else '') for x in sc]))
+            wd = NITFWritingDetails(NITFHeader(CLEVEL=3, OSTAID='c14', FTITLE='general', FL=0), image_managers=(ImageSubheaderManager(hdr),),
+                                    image_segment_collections=((0,),))
+            p = self.new_path('ntf')
+            with open(p, 'w+b') as f:
+                with NITFWriter(f, wd):
+                    pass
+            if r.get('relabel'):
+                # band labels the writer refuses for this PVTYPE, patched into the written subheader (same field widths)
+                with open(p, 'rb') as f:
+                    b = f.read()
+                for old, new in r['relabel']:
+                    if b.count(old.ljust(6).encode()) == 0:
+                        raise Infra('harness: band label to patch not found')
+                    b = b.replace(old.ljust(6).encode(), new.ljust(6).encode())
+                with open(p, 'wb') as f:
+                    f.write(b)
             return p
         if k == 'nitf20x':
             # NITF 2.0 assembled by hand (c14x.build_nitf20): image / symbol / label / text / DES segments
@@ -731,7 +767,7 @@ def oracle_cell(label, recipe, epname, argkind, res, results):
         return None
     if label == 'NITF-arbitrary':
         if out == 'X' and not recipe.get('inconsistent'):
-            return f'general NITF {recipe["images"]}/{recipe["des"]}: {epname}({argkind}) raised {res["exc"]}'
+            return f'general NITF {short(recipe)}: {epname}({argkind}) raised {res["exc"]}'
         if res['fo_ok'] is False:
             return f'{epname}(file object) rejected the file but left the file object unusable'
         return None
@@ -937,6 +973,59 @@ def nitf20_recipes(rng, tier):
     return out
 
 
+GN_PIXELS = [('INT', 8), ('INT', 16), ('INT', 32), ('SI', 16), ('SI', 32), ('R', 32), ('R', 64), ('C', 64)]
+GN_LABELS = {1: [['']], 2: [['I', 'Q'], ['Q', 'I'], ['M', 'P'], ['P', 'M'], ['', ''], ['I', '']], 3: [['', '', ''], ['I', 'Q', '']],
+             4: [['I', 'Q', 'I', 'Q'], ['M', 'P', 'M', 'P'], ['I', 'Q', 'Q', 'I'], ['Q', 'I', 'Q', 'I'], ['', '', '', ''], ['I', 'Q', 'M', 'P']]}
+
+
+def gnitf_label(r):
+    """what the property expects of a general NITF with this one image segment, stated from the recipe alone"""
+    sar, pv, sc = r['icat'] in ('SAR', 'SARIQ'), r['pv'], r['subcats']
+    n = len(sc)
+    first = (sc[0] + sc[1]) if n >= 2 else ''
+    pair = n % 2 == 0 and first in ('IQ', 'QI', 'MP', 'PM')
+    if pv != 'C' and not pair:
+        return 'NITF-general'        # real-valued pixels, no complex band pairing: a general NITF whatever its category
+    if not sar:
+        return 'NITF-arbitrary'      # complex-looking data outside the SAR categories: no expectation beyond "does not raise"
+    if n % 2 == 1:
+        return 'NITF-complex'        # natively complex pixels (PVTYPE C)
+    if pair and all(sc[i] + sc[i + 1] == first for i in range(2, n, 2)) and \
+            ((first in ('IQ', 'QI') and pv in ('SI', 'R')) or (first in ('MP', 'PM') and pv == 'R')):
+        return 'NITF-complex'
+    return 'NITF-arbitrary'
+
+
+def writer_refuses(pv, sc):
+    """NITFWriter itself refuses band labels that do not fit the PVTYPE (validation of the image subheader)"""
+    if len(sc) < 2:
+        return False
+    first = sc[0] + sc[1]
+    return (first in ('IQ', 'QI') and pv not in ('SI', 'R')) or (first in ('MP', 'PM') and pv not in ('INT', 'R'))
+
+
+def gnitf_recipes(rng, tier):
+    """general NITF files over ICAT x (PVTYPE, NBPP) x band count 1..4 x ISUBCAT labellings"""
+    out = []
+    for icat in ('SAR', 'SARIQ', 'VIS', 'EO'):
+        cases = []
+        for pv, nbpp in GN_PIXELS:
+            for n in (1, 2, 3, 4):
+                for sc in GN_LABELS[n]:
+                    if writer_refuses(pv, sc) or (icat in ('VIS', 'EO') and any(sc) and sc[:2] not in (['I', 'Q'], ['M', 'P'])):
+                        continue
+                    cases.append({'kind': 'gnitf', 'icat': icat, 'pv': pv, 'nbpp': nbpp, 'subcats': sc})
+        if tier == 'quick' and icat != 'SAR':
+            cases = rng.sample(cases, 24)
+        for c in cases:
+            c['label'] = gnitf_label(c)
+            out.append(c)
+    # a PVTYPE that does not fit the labelling of a multi-pair segment (the writer refuses these: labels patched afterwards)
+    out.append({'kind': 'gnitf', 'label': 'NITF-muddled', 'icat': 'SAR', 'pv': 'SI', 'nbpp': 16, 'subcats': ['I', 'Q', 'I', 'Q'],
+                'relabel': [['I', 'M'], ['Q', 'P']]})
+    return out
+
+
 def writer_model_query(r):
     """driver request that makes the writer model produce the descriptor of this recipe (None if not a modelled writer)"""
     def toks(extra):
@@ -996,7 +1085,8 @@ def run(tier):
         if tab_flags is not None and tab_flags != bits[3:7]:
             disagreements.append({'msg': f'guard-defect flags: the regenerated tables show {tab_flags} (tiffShort radarsatParse tsxDangling palsarSpecial) '
                                          f'but the probes on the implementation measure {bits[3:7]}', 'recipe': {'kind': 'probe'}})
-        recipes = written_recipes(rng, tier) + nitf20_recipes(rng, tier) + env_recipes(rng, tier) + arbitrary_recipes(rng, tier) + blob_recipes(rng, tier)
+        recipes = written_recipes(rng, tier) + nitf20_recipes(rng, tier) + gnitf_recipes(rng, tier) + env_recipes(rng, tier) + \
+            arbitrary_recipes(rng, tier) + blob_recipes(rng, tier)
         drv = Driver()
         records = []
         t_build = time.time()
@@ -1065,6 +1155,15 @@ def run(tier):
                         disagreements.append({'msg': f'NITF 2.0 [{rec["desc"]}] symbols/labels {rec["recipe"]["nsym"]}/{rec["recipe"]["nlab"]}: model sicdDetails={exp_sd} but SICDDetails gives {sd}', 'recipe': r})
                     if dd != exp_dd:
                         disagreements.append({'msg': f'NITF 2.0 [{rec["desc"]}] symbols/labels {rec["recipe"]["nsym"]}/{rec["recipe"]["nlab"]}: model siddDetails={exp_dd} but SIDDDetails gives {dd}', 'recipe': r})
+                fac.discard(r, path)
+                continue
+            if label == 'NITF-muddled':
+                # an inconsistent subheader no writer of sarpy produces: only the decision of the fallback opener is compared
+                if vmodel.get('path') is not None and vmodel['path']['final'] != 'D':
+                    out, exc = is_a_outcome(reg['final'], path, 'path')
+                    isa_checked += 1
+                    if out != vmodel['path']['final']:
+                        disagreements.append({'msg': f'guard table of final says {vmodel["path"]["final"]} for {short(r)} [{rec["desc"]}] but final_attempt gives {out} {exc or ""}', 'recipe': r})
                 fac.discard(r, path)
                 continue
             results = {}
